@@ -21,7 +21,11 @@ type badRootExec struct {
 	root  *mast.Root
 	keys  []uint64
 	last  string // last observation, echoed to the model for cases the model does not cover
+	// the last load met the recorded finding (the model is not consulted for it)
+	lastKnown bool
 }
+
+var badRootKnown []knownHit
 
 func encBinNode(keys, vals [][]byte, links []string, nlinks int) []byte {
 	var buf []byte
@@ -122,6 +126,16 @@ func (e *badRootExec) Exec(line string) (obs, viol string) {
 			}
 		}
 		rc := &mast.RemoteConfig{KeysLike: lcfg.KeysLike(), ValuesLike: lcfg.ValuesLike(), StoreImmutablePartsWith: st}
+		if p["cache"] == "warm" && p["top"] == "same" {
+			// a node cache that a correctly configured reader has filled before: the mismatching
+			// loader finds the top node there instead of decoding it
+			cache := mast.NewNodeCache(1000)
+			good := &mast.RemoteConfig{KeysLike: e.cfg.KeysLike(), ValuesLike: e.cfg.ValuesLike(), StoreImmutablePartsWith: st, NodeCache: cache}
+			if gm, gerr := e.root.LoadMast(context.Background(), good); gerr == nil {
+				_ = gm.Iter(context.Background(), func(interface{}, interface{}) error { return nil })
+			}
+			rc.NodeCache = cache
+		}
 		if p["order"] == "desc" {
 			def := mast.DefaultKeyCompare(nil)
 			rc.KeyCompare = func(a, b interface{}) (int, error) {
@@ -150,8 +164,17 @@ func (e *badRootExec) Exec(line string) (obs, viol string) {
 		}
 		e.last = obs
 		bad, why := e.isBad(p, &r, lcfg, st)
+		e.lastKnown = false
 		if bad && obs != "err" {
 			viol = fmt.Sprintf("root that %s was not rejected with an error: LoadMast outcome %s", why, obs)
+			if obs == "ok" && rc.NodeCache != nil && (lcfg.KK != e.cfg.KK || r.NodeFormat != e.root.NodeFormat) {
+				// recorded finding: the top node is taken from a node cache that holds it decoded
+				// under another key type or node format; the cache key does not include the decoding
+				// configuration
+				badRootKnown = append(badRootKnown, knownHit{line, "KF-cache-other-config: " + viol})
+				e.lastKnown = true
+				viol = ""
+			}
 		}
 		return obs, viol
 	}
@@ -220,6 +243,9 @@ func (e *badRootExec) ModelLine(line string) string {
 	for _, kv := range t[1:] {
 		i := strings.IndexByte(kv, '=')
 		p[kv[:i]] = kv[i+1:]
+	}
+	if e.lastKnown {
+		return "echo " + e.last
 	}
 	fm := e.root.NodeFormat
 	if p["fmt"] != "same" {
@@ -366,7 +392,11 @@ func genBadRootCase(r *rand.Rand) Case {
 				p["top"] = "missing"
 			}
 		}
-		ops = append(ops, fmt.Sprintf("try fmt=%s kk=%s h=%s bf=%s order=%s top=%s", p["fmt"], p["kk"], p["h"], p["bf"], p["order"], p["top"]))
+		line := fmt.Sprintf("try fmt=%s kk=%s h=%s bf=%s order=%s top=%s", p["fmt"], p["kk"], p["h"], p["bf"], p["order"], p["top"])
+		if p["top"] == "same" && r.Intn(2) == 0 {
+			line += " cache=warm"
+		}
+		ops = append(ops, line)
 	}
 	return Case{cfg, ops}
 }
@@ -379,11 +409,35 @@ var badRootRunner = Runner{Mk: func(c Cfg) Executor { return &badRootExec{cfg: c
 }}
 
 func famBadRoots(f *FamCtx) {
-	f.Report.Rule = "a good persisted version, then LoadMast of perturbed roots: unknown/alternative format strings, missing top node, recorded height and branch factor changed, reversed KeyCompare, another key kind in the loader, hand-encoded binary top nodes (unsorted, duplicate key, more keys than values, too many / too few links, truncated, bit-flipped, huge count); outcome enum ok|err|panic|hang compared with the Lean loader model (binary format) and with the harness's own restatement of C19's rejecting conditions; non-trivial = every case (each holds >= 12 perturbed loads)"
+	f.Report.Rule = "a good persisted version, then LoadMast of perturbed roots (half of those that keep the stored top node also with a node cache warmed by a correctly configured reader): unknown/alternative format strings, missing top node, recorded height and branch factor changed, reversed KeyCompare, another key kind in the loader, hand-encoded binary top nodes (unsorted, duplicate key, more keys than values, too many / too few links, truncated, bit-flipped, huge count); outcome enum ok|err|panic|hang compared with the Lean loader model (binary format) and with the harness's own restatement of C19's rejecting conditions; non-trivial = every case (each holds >= 12 perturbed loads)"
 	rn := badRootRunner
+	f.Sig = func(o Outcome) string {
+		if strings.HasPrefix(o.Viol, "KF-cache-other-config: ") {
+			return "top-node-taken-from-node-cache-decoded-under-another-configuration@store.go:loadPersisted(cache-hit)"
+		}
+		return ""
+	}
 	f.Gen = func() Case { return genBadRootCase(f.Rand) }
 	n := f.N(150, 5000)
-	for i := 0; i < n; i++ {
-		f.RunTreeCase(f.Gen(), rn, func(CaseStats) bool { return true })
+	witnesses := append(Witnesses("C19"), f.TakeCorpus()...)
+	reported := map[string]bool{}
+	for i := 0; i < n+len(witnesses); i++ {
+		var c Case
+		if i < len(witnesses) {
+			c = witnesses[i]
+		} else {
+			c = f.Gen()
+		}
+		before := len(badRootKnown)
+		f.RunTreeCase(c, rn, func(CaseStats) bool { return true })
+		for _, h := range badRootKnown[before:] {
+			sig := f.Sig(Outcome{Viol: h.viol})
+			if !reported[sig] {
+				reported[sig] = true
+				f.Report.Findings = append(f.Report.Findings, Finding{Family: "badroots", Property: "C19", Case: c, Shrunk: c,
+					Outcome: Outcome{Kind: "oracle", Line: h.line, Viol: h.viol}, FailingInput: true, Signature: sig})
+			}
+		}
 	}
+	f.Report.Stats = map[string]interface{}{"known_finding_occurrences_stepped_over": len(badRootKnown)}
 }
